@@ -545,6 +545,10 @@ def run(ctx):
             for rname in recs:
                 cfg.append((mname, flux, rname, ctx.tier))
     ctx.pmap("reflection-operator", shard_reflect, cfg)
+    first = {}
+    for c in cfg:
+        first.setdefault((MODELS[c[0]][1], c[2]), c)
+    ctx.pmap("reflection-operator-reused-objects", core.Pooled(shard_reflect), list(first.values()))
     ctx.pmap("reflection-packed-windows", shard_windows, [(c[0], c[1], c[2]) for c in cfg if not c[0].startswith("nozzle")])
     names = list(space.integrators())
     cfg3 = [(i, s, ctx.tier) for i in names for s in range(len(SYSTEMS))]
